@@ -245,9 +245,31 @@ func (p *parser) doImport() error {
 	tokensAfter := p.tokens[p.cursor+1:]
 	var importedTokens []Token
 
+	// the chain of imports that brought the import directive itself here;
+	// importing anything already on that chain would never terminate
+	importChain := p.tokens[p.cursor-1].imports
+	addToChain := func(tokens []Token, name string) ([]Token, error) {
+		for _, imp := range strings.Split(importChain, "\n") {
+			if imp == name {
+				return nil, p.Errf("Import cycle detected: %s", importPattern)
+			}
+		}
+		chain := importChain + "\n" + name
+		chained := make([]Token, len(tokens))
+		for i, tkn := range tokens {
+			tkn.imports = chain
+			chained[i] = tkn
+		}
+		return chained, nil
+	}
+
 	// first check snippets. That is a simple, non-recursive replacement
 	if p.definedSnippets != nil && p.definedSnippets[importPattern] != nil {
-		importedTokens = p.definedSnippets[importPattern]
+		var err error
+		importedTokens, err = addToChain(p.definedSnippets[importPattern], "("+importPattern+")")
+		if err != nil {
+			return err
+		}
 	} else {
 		// make path relative to the file of the _token_ being processed rather
 		// than current working directory (issue #867) and then use glob to get
@@ -288,6 +310,12 @@ func (p *parser) doImport() error {
 			newTokens, err := p.doSingleImport(importFile)
 			if err != nil {
 				return err
+			}
+			if len(newTokens) > 0 {
+				newTokens, err = addToChain(newTokens, newTokens[0].File)
+				if err != nil {
+					return err
+				}
 			}
 			importedTokens = append(importedTokens, newTokens...)
 		}
